@@ -219,13 +219,24 @@ func wShr(a, s *Term, w int) *Term {
 	return WOp(w, "shr", a, s)
 }
 
-// nonZeroIdiom recognises the operands of u | -u and u | (^u & -u).
+// nonZeroIdiom recognises the operands of u | -u and u | (^u & -u); since
+// or-operands are flattened, u is the or of all operands but one.
 func nonZeroIdiom(args []*Term, w int) *Term {
-	if len(args) != 2 {
+	if len(args) < 2 {
 		return nil
 	}
-	for i := 0; i < 2; i++ {
-		u, o := args[i], args[1-i]
+	for i := range args {
+		var rest []*Term
+		for j, a := range args {
+			if j != i {
+				rest = append(rest, a)
+			}
+		}
+		u := rest[0]
+		if len(rest) > 1 {
+			u = WOp(w, "or", rest...)
+		}
+		o := args[i]
 		neg := wNeg(u, w)
 		if o.Equal(neg) {
 			return u
